@@ -134,7 +134,14 @@ impl Prop for C16 {
             doc_comments: !huge,
             ..LayoutCfg::default()
         };
-        let d = doccase::gen_doc(&mut s, &cfg, &lc)?;
+        let d = if !huge && s.chance(1, 6) {
+            let (primer, d) = doccase::gen_primed_doc(&mut s, &cfg, &lc)?;
+            let _ = imp::run_one(&primer);
+            st.class("primed");
+            d
+        } else {
+            doccase::gen_doc(&mut s, &cfg, &lc)?
+        };
         st.eval();
         let huge_text;
         let text = if huge {
